@@ -2,9 +2,52 @@
 
 package service
 
-import "github.com/icon-project/goloop/module"
+import (
+	"github.com/icon-project/goloop/module"
+	"github.com/icon-project/goloop/service/scoredb"
+	"github.com/icon-project/goloop/service/state"
+)
 
 // VerifLoggerTracker returns the locator tracker behind a TXIDLogger (C11 harness).
 func VerifLoggerTracker(l TXIDLogger) module.LocatorTracker {
 	return l.(*txIDLogger).lt
+}
+
+// ---- transition-level stream of C11 (read-only accessors) ----
+
+// VerifC11LocatorManager returns the locator manager of a real service manager.
+func VerifC11LocatorManager(sm module.ServiceManager) module.LocatorManager {
+	return sm.(*manager).lm
+}
+
+// VerifC11Trackers returns the locator trackers behind the patch / normal id
+// loggers of a transition (nil when the logger has not been created).
+func VerifC11Trackers(tr module.Transition) (patch, normal module.LocatorTracker) {
+	t := tr.(*transition)
+	t.mutex.Lock()
+	defer t.mutex.Unlock()
+	if l, ok := t.ptxIDs.(*txIDLogger); ok && l != nil {
+		patch = l.lt
+	}
+	if l, ok := t.ntxIDs.(*txIDLogger); ok && l != nil {
+		normal = l.lt
+	}
+	return
+}
+
+// VerifC11StateThresholdMS reads timestamp_threshold (milliseconds, 0 = not set)
+// from the world snapshot a completed transition results in.
+func VerifC11StateThresholdMS(tr module.Transition) (int64, bool) {
+	t := tr.(*transition)
+	t.mutex.Lock()
+	defer t.mutex.Unlock()
+	if t.worldSnapshot == nil {
+		return 0, false
+	}
+	ass := t.worldSnapshot.GetAccountSnapshot(state.SystemID)
+	if ass == nil {
+		return 0, true
+	}
+	as := scoredb.NewStateStoreWith(ass)
+	return scoredb.NewVarDB(as, state.VarTimestampThreshold).Int64(), true
 }
